@@ -7,10 +7,12 @@ ORACLE_NOTE = (
 )
 
 PBT = "property-based testing (Hypothesis @given, collect-bucket-shrink)"
+NAMES = "; exhaustive comparison of the named code points with tables written from the standard"
+ENV = "; metamorphic comparison with a child interpreter started under other flags (-O, -W error)"
 
 TABLE = [
     ("C01", "exploration",
-     PBT + " + exhaustive per-word sweeps against a reference header codec",
+     PBT + " + exhaustive per-word sweeps against a reference header codec" + NAMES,
      "each 16-bit header word enumerated completely (3 x 65536) in both directions, boundary-weighted random 48-bit headers, "
      "id/psc word conversions, SpacePacket.pack, out-of-range refusals; the 2^48 product itself is sampled, not enumerated",
      ORACLE_NOTE, "DESIGN.md section 4 C01"),
@@ -20,7 +22,7 @@ TABLE = [
      "round trip / equality / re-pack / space-packet view; declared lengths 7..12 with CRC patched over the declared extent must be refused",
      ORACLE_NOTE, "DESIGN.md section 4 C02"),
     ("C03", "exploration",
-     PBT + " against a reference PUS-C TM encoder over generated timestamp lengths (decoder configuration)",
+     PBT + " against a reference PUS-C TM encoder over generated timestamp lengths (decoder configuration)" + NAMES,
      "as C02 for telemetry with timestamp lengths 0..32, packet version, destination id, time reference; service-17 wrapper; "
      "declared lengths below 6+7+ts+2 with patched CRC must be refused",
      ORACLE_NOTE, "DESIGN.md section 4 C03"),
@@ -31,22 +33,22 @@ TABLE = [
      ORACLE_NOTE + "; CRC-16/CCITT detects every burst <= 16 bits, so no probabilistic alarm; the unprotectable CFDP CRC-flag bit and the length-determining octets are excluded as the statement says",
      "DESIGN.md section 4 C04"),
     ("C05", "exploration",
-     PBT + " + exhaustive flag x width grid and all (octet0, octet3) pairs against a reference header codec",
+     PBT + " + exhaustive flag x width grid and all (octet0, octet3) pairs against a reference header codec" + NAMES,
      "all 2048 header configurations packed/unpacked with boundary-weighted values, every strict prefix refused, all 2^16 flag/width octet "
      "pairs through the decoder, refusals of mismatching id widths / oversize length / version / width codes",
      ORACLE_NOTE, "DESIGN.md section 4 C05"),
     ("C06", "exploration",
-     PBT + " per directive against reference directive encoders written from 727.0-B-5",
+     PBT + " per directive against reference directive encoders written from 727.0-B-5" + NAMES,
      "seven directives x generated parameter sets x header configurations (CRC, large file, 16 width pairs): octets == reference, data-field "
      "length, decode to same class / identical observed fields / == / identical re-pack; over-width sizes must fail to pack",
      ORACLE_NOTE, "DESIGN.md section 4 C06"),
     ("C07", "exploration",
-     PBT + " against a reference File Data encoder; helper-function metamorphic check",
+     PBT + " against a reference File Data encoder; helper-function metamorphic check" + NAMES,
      "offset / segment metadata / file data (empty, tiny, 4096, near the 65535 limit) x header configurations incl. segmentation control and CRC: octets == reference, "
      "decoded data exactly as long as sent, lengths consistent after decode, == and re-pack; metadata > 63 refused; max-segment helper packs to exactly the maximum",
      ORACLE_NOTE, "DESIGN.md section 4 C07"),
     ("C08", "exploration",
-     PBT + " against reference TLV/LV layouts + exhaustive status-code grid + foreign-type matrix",
+     PBT + " against reference TLV/LV layouts + exhaustive status-code grid + foreign-type matrix" + NAMES,
      "generic TLV/LV over all types and value lengths 0..255 with continuation octets; six concrete TLVs over action x status x names (multi-octet characters) through "
      "unpack / from_tlv / holder; all 144 (action,status) pairs through the mapping helpers; every (class, foreign type, route) combination must raise the mismatch error",
      ORACLE_NOTE, "DESIGN.md section 4 C08"),
@@ -56,7 +58,7 @@ TABLE = [
      "length identical to the unit decoded alone (PDUs may instead be refused); 2..4 units back to back recovered by decode/advance; accepted noise buffers that begin with a unit decode like their first N octets",
      ORACLE_NOTE + "; observation functions read every user-visible field", "DESIGN.md section 4 C09"),
     ("C10", "exploration",
-     PBT + " over a table of 53 public decoder entry points: arbitrary octets, exhaustive truncation points and header/length-field substitutions of valid units, CRC re-patching; oracle = allowed-exception table + watchdog",
+     PBT + " over a table of 53 public decoder entry points: arbitrary octets, exhaustive truncation points and header/length-field substitutions of valid units, CRC re-patching; oracle = allowed-exception table + watchdog" + ENV,
      "per decoder family: arbitrary and structured-noise buffers, every strict prefix of generated valid units (self-delimiting units must be refused), single-octet substitutions at every header index and "
      "length-field rewrites incl. consistently shortened units, with the checksum re-patched over the declared extent in half the cases; any outcome other than a return or a documented error class (or a 10 s watchdog expiry) is a violation",
      ORACLE_NOTE + "; the table of documented error classes in vf/excs.py; termination is observed with a watchdog, not proved", "DESIGN.md section 4 C10"),
@@ -66,7 +68,7 @@ TABLE = [
      "every step reported length == len(pack()), length field as the format requires, octets == freshly built object, pack repeatable; constructing and packing leaves caller-owned config/params untouched",
      ORACLE_NOTE, "DESIGN.md section 4 C11"),
     ("C12", "exploration",
-     PBT + ": factory dispatch and holder casts over all kinds x width combinations, oracle = class identity + reference parser",
+     PBT + ": factory dispatch and holder casts over all kinds x width combinations, oracle = class identity + reference parser" + ENV,
      "8 PDU kinds x 16 (id width, seq width) pairs x CRC x large file through PduFactory.from_raw / inspectors / holder; all 64 (held kind, accessor) pairs per case",
      ORACLE_NOTE, "DESIGN.md section 4 C12"),
     ("C13", "exploration",
@@ -75,12 +77,12 @@ TABLE = [
      "streams in the thorough tier; append/parse machine; after every parse: packets returned exactly once, in order, byte-identical, queue == not-yet-complete tail",
      ORACLE_NOTE, "DESIGN.md section 4 C13"),
     ("C14", "exploration",
-     PBT + " + exhaustive day counts against integer calendar arithmetic (datetime/timedelta) with stated float tolerance",
+     PBT + " + exhaustive day counts against integer calendar arithmetic (datetime/timedelta) with stated float tolerance" + NAMES,
      "all 65536 day counts, boundary-weighted milliseconds, datetimes over 1958..2137 at microsecond resolution, additions constructed to land on midnight and on the day limit; "
      "views, from_datetime, +timedelta, refusals",
      ORACLE_NOTE, "DESIGN.md section 4 C14"),
     ("C15", "exploration",
-     PBT + " + exhaustive 16-bit halves of the request id against the reference TM encoder and an explicit source-data layout",
+     PBT + " + exhaustive 16-bit halves of the request id against the reference TM encoder and an explicit source-data layout" + NAMES + ENV,
      "2 x 65536 request ids through pack/unpack/as_u32/from_sp_header, equality/hash iff on pairs differing in one bit, eight report kinds with all step/error widths, helper "
      "constructors, all 32 (subservice, step, failure) parameter-set combinations",
      ORACLE_NOTE, "DESIGN.md section 4 C15"),
@@ -90,12 +92,12 @@ TABLE = [
      "complete verif_dict compared with the model after every call",
      ORACLE_NOTE + "; the reference transition function in vf/props/c16.py", "DESIGN.md section 4 C16"),
     ("C17", "exploration",
-     PBT + " against reference USLP header/frame encoders; managed parameters as generated decoder configuration",
+     PBT + " against reference USLP header/frame encoders; managed parameters as generated decoder configuration" + NAMES,
      "headers over all VCF count lengths and boundary ids; frames over 8 rules x 10 protocol ids x optional insert zone/OCF/FECF x fixed/variable/truncated: octets == reference, "
      "length field after update, decode with matching parameters identical, five kinds of detectable mismatch raise the USLP errors",
      ORACLE_NOTE, "DESIGN.md section 4 C17"),
     ("C18", "exploration",
-     PBT + " against reference reserved-message layouts; negative clause over arbitrary octets",
+     PBT + " against reference reserved-message layouts; negative clause over arbitrary octets" + NAMES,
      "nine reserved message kinds with all id widths / enum values / name lengths from empty to the full TLV budget decoded back through four routes, every non-matching "
      "getter must return None; arbitrary (incl. non-UTF-8) contents must classify as not reserved without raising",
      ORACLE_NOTE, "DESIGN.md section 4 C18"),
